@@ -30,3 +30,7 @@ Record panic_site := { ps_line : Z; ps_class : site_class }.
 
 Definition site_ok (s : panic_site) : bool :=
   match ps_class s with Unclassified => false | _ => true end.
+
+(** * Normalisation call sites (C04) *)
+Record norm_site := { ns_line : Z; ns_calls : Z; ns_expected : Z }.
+Definition norm_ok (s : norm_site) : bool := ns_expected s <=? ns_calls s.
